@@ -54,7 +54,7 @@ def run_extract(ctx):
         exe = os.path.join(C.BIN, "cliextract")
         if os.path.exists(exe):
             os.remove(exe)
-        rc, o = C.sh(["go", "build", "-o", exe, "./cmd/cliextract"], cwd=os.path.join(C.VERIF, "harness"),
+        rc, o = C.sh(["go", "build"] + C.go_mod_args() + ["-o", exe, "./cmd/cliextract"], cwd=os.path.join(C.VERIF, "harness"),
                      env=C.GOENV, timeout=600)
         ctx.log.append({"step": "go build cliextract", "rc": rc, "out": o[-1500:]})
         if rc != 0:
